@@ -12,6 +12,7 @@ def load_worlds():
     import worlds.enip_conc         # noqa: F401
     import worlds.enip_hostile      # noqa: F401
     import worlds.stream            # noqa: F401
+    import worlds.hist              # noqa: F401
     _loaded = True
 
 
@@ -152,5 +153,19 @@ PROPS = {
         assumptions=['the pure dump/parse round trip (first sentence of C20) is used only as a gate for reference values, not claimed'],
         quick=dict(parts=[dict(world='c20', count=1200)]),
         thorough=dict(parts=[dict(world='c20', count=60000)]),
+    ),
+    'C18': dict(
+        level='exploration',
+        rule=('one seed -> a history of 1..200 records (ms grid; equal or increasing timestamps) written by the real logger into '
+              '1..13 files in log-rotation naming (natural sort incl. .10 vs .2), some gz/bz2 (copy beside or instead of the plain '
+              'file), with comments, blank lines, notes, null and bad-JSON records and torn last lines after each file\'s first '
+              'record; loader start before/at/inside/after the history, factor 0.1..1000, look-ahead None..3600, limit None/1/3/1000; '
+              'the schedule is a tape-driven sequence of clock advances (sub-ms .. several files) and drains (load(limit) until no '
+              'event); oracle over the recorded (call time, events): delivered == prefix of the log from the starting file, never '
+              'early, never late, COMPLETE within three drains after the end, final register map; non-trivial = >= 1 record delivered'),
+        assumptions=['the starting file is the newest file whose first record is at or before the historical time of the first load (1 ms tolerance)',
+                     'the file system is passive (no concurrent writer is part of C18); the clock is the seam'],
+        quick=dict(parts=[dict(world='c18', count=1600)]),
+        thorough=dict(parts=[dict(world='c18', count=100000)]),
     ),
 }
